@@ -85,3 +85,74 @@ Theorem C08_request_calls_have_valid_chains : forall U fuel srv,
     P U (s_ctx srv) fuel (h_desc h) [mkDlg l vis] a.
 Proof. exact request_calls_have_valid_chains. Qed.
 Print Assumptions C08_request_calls_have_valid_chains.
+
+(* ------------------------------------------------------------------ *)
+(* From the request BODY (ServerBytes.v). *)
+From Ucanto Require Import Ipld Cbor Formats MessageFormat Car MessageBytes TokenBytes TokenView ServerBytes.
+
+(* A body written by the library's encoders — the blocks of some tokens followed by the root block
+   of a message m, distinct CIDs, every block matching its CID — is served as Server.execute on
+   exactly those blocks: the execute list of m, every block visible, the token store U_of blocks.
+   (`view`: how a block is read as a token, see C08_bytes_world; extb: the blocks the proof resolver
+   can supply beyond those of the request.) *)
+Theorem C08_bytes_refines :
+  forall (mh_digest : N -> N -> bstr -> option bstr) (hdr_oracle : bstr -> option (list bstr * N))
+         (fuel : nat) (srv : server) (extb : list (bstr * bstr)) (view : bstr -> token)
+         (m : amsg) (root : bstr) (toks : list (bstr * utoken)),
+    wf_ipld (message_ipld m) = true -> in_budget (message_ipld m) = true ->
+    let blocks := request_blocks toks root m in
+    roots_ok 1 [root] -> Forall (block_ok mh_digest) blocks -> NoDup (map fst blocks) ->
+    msg_root_ok mh_digest root (message_bytes m) ->
+    serve_bytes mh_digest hdr_oracle fuel srv extb view (car_encode [root] blocks) =
+    SDone (execute (U_of extb view blocks) fuel srv (vis_of blocks) (exec_of (canon_msg m))).
+Proof. exact serve_bytes_refines. Qed.
+Print Assumptions C08_bytes_refines.
+
+(* ... and when blocks are read as TokenView.view_block reads them, that token store is the abstract
+   world, pointwise: the view of each token (in the canonical form the decoder returns) under the
+   number of its CID, the empty token for the message's own root block, nothing for every link that
+   is neither a block of the request nor one of the resolver's *)
+Theorem C08_bytes_world :
+  forall (keys : list N) (valid : N -> bstr -> bstr -> bool) (alg_of : N -> bstr)
+         (extb : list (bstr * bstr)) (view : bstr -> token),
+    (forall b, view b = view_block lid keys valid alg_of b) ->
+  forall (m : amsg) (root : bstr) (toks : list (bstr * utoken)),
+    wf_ipld (message_ipld m) = true -> in_budget (message_ipld m) = true ->
+    let blocks := request_blocks toks root m in
+    NoDup (map fst blocks) ->
+    (forall c t, In (c, t) toks ->
+       wf_ipld (token_ipld t) = true /\ in_budget (token_ipld t) = true /\ token_typed_ok t = true /\ u_fct t <> Some []) ->
+    (forall c t, In (c, t) toks ->
+       U_of extb view blocks (lid c) = Some (view_token lid keys valid alg_of (canon_token t))) /\
+    U_of extb view blocks (lid root) = Some empty_token /\
+    (forall l, ~ In l (vis_of (blocks ++ extb)) -> U_of extb view blocks l = None).
+Proof. exact serve_bytes_world. Qed.
+Print Assumptions C08_bytes_world.
+
+(* ONE theorem from bytes to "a handler ran only for a complete valid chain": whatever the body,
+   if serving it produced a report, every handler call belongs to an entry of the decoded message's
+   execute list whose block is in the request's block table, decodes (typed decoding) to a UCAN
+   with exactly one capability naming the handler that was called, and carries an authorization
+   satisfying ValidatorSpec.P — also in the form P_sg whose signature clauses speak about the signed
+   bytes of blocks of this very body or of the resolver (C01_sound_bytes). *)
+Theorem C08_bytes_calls_have_valid_chains :
+  forall (mh_digest : N -> N -> bstr -> option bstr) (hdr_oracle : bstr -> option (list bstr * N))
+         (keys : list N) (valid : N -> bstr -> bstr -> bool) (alg_of : N -> bstr) (fuel : nat) (srv : server)
+         (extb : list (bstr * bstr)) (view : bstr -> token),
+    (forall b, view b = view_block lid keys valid alg_of b) ->
+  forall (body : bstr) (rep : report) (calls : list call),
+    (forall l p, resolve_proof (s_ctx srv) l = Some p -> d_link p = l) ->
+    serve_bytes mh_digest hdr_oracle fuel srv extb view body = SDone (ExecOk rep calls) ->
+    exists d, decode_message mh_digest hdr_oracle body = Some d /\
+    forall k, In k calls ->
+    exists cid data ut h a c,
+      In cid (invocations_bytes (d_msg d)) /\ tbl_get (d_store d) cid = Some data /\
+      token_decode_typed data = Some ut /\
+      map (view_cap lid) (u_att ut) = [c] /\ find_handler (r_can c) (s_service srv) = Some h /\
+      k = (h_can h, node_cap a) /\
+      let U := U_of extb view (blocks_of d) in
+      let inv := mkDlg (lid cid) (vis_of (blocks_of d)) in
+      P U (s_ctx srv) fuel (h_desc h) [inv] a /\
+      P_sg U (s_ctx srv) (sig_ok_bytes (B_of (blocks_of d ++ extb)) lid keys valid alg_of) fuel (h_desc h) [inv] a.
+Proof. exact serve_bytes_calls_have_valid_chains. Qed.
+Print Assumptions C08_bytes_calls_have_valid_chains.
